@@ -26,8 +26,10 @@ import numpy as np
 import common
 import proofs
 from common import BUILD, COQ, VERIF
+from props import c19_session
 
-FILES = ["gen/Gen_tables_params.v", "Model_config.v", "Proofs_config.v"]
+FILES = ["gen/Gen_tables_params.v", "Model_config.v", "Proofs_config.v", "Model_pyconfig.v", "gen/Gen_io_config.v", "Inst_config.v",
+         "Model_config_session.v", "Proofs_config_session.v"]
 PROP = "Properties/C19.v"
 
 # findings of the current tree that this check knows how to recognise (one witness each).
@@ -280,9 +282,11 @@ class Impl:
             return ["d", sorted([[k, self.canon(x, base)] for k, x in v.items()], key=lambda kv: kv[0])]
         return ["unknown", type(v).__name__]
 
-    def run(self, path, tree):
-        """-> canonical result of parse_config(path); `tree` = tomllib view of the same file"""
-        self.rec = []
+    def run(self, path, tree, reset=True):
+        """-> canonical result of parse_config(path); `tree` = tomllib view of the same file
+        (reset=False: keep the record of loaded objects, for call histories whose earlier results stay alive)"""
+        if reset:
+            self.rec = []
         base = pathlib.Path(path).resolve().parent
         names = set()
         for tab, key in (("parameters", "phase_assemblage"), ("output", "raw_output"), ("output", "diagnostics")):
@@ -308,10 +312,12 @@ class Impl:
             cname = self.canon(name, base)
 
         def tab(d, phase_keys):
+            if not isinstance(d, dict) or not all(isinstance(k, str) for k in d):
+                return ["d", [["<not-a-table>", ["unknown", type(d).__name__]]]]
             return ["d", sorted([[k, self.canon(x, base, names if k in phase_keys else ())] for k, x in d.items()],
                                 key=lambda kv: kv[0])]
-        res = ["ok", cname, tab(cfg["parameters"], ("phase_assemblage",)), tab(cfg["input"], ()),
-               tab(cfg["output"], ("raw_output", "diagnostics"))]
+        res = ["ok", cname, tab(cfg.get("parameters"), ("phase_assemblage",)), tab(cfg.get("input"), ()),
+               tab(cfg.get("output"), ("raw_output", "diagnostics"))]
         extra = sorted(set(cfg) - {"name", "parameters", "input", "output"})
         if extra:
             res.append(["extra-keys", extra])
@@ -974,7 +980,7 @@ def search(chk, impl, wd, cases, V, status):
 
 
 def run(chk):
-    ok, br = proofs.prove(chk, FILES, PROP, groups=(), gen_modules=("params",))
+    ok, br = proofs.prove(chk, FILES, PROP, groups=(), gen_modules=("params", "ioconfig"))
     chk.cov["trusted_base"] = [
         common.TRUSTED_COMMON[0],
         "table generator /verif/translator/specs_params.py (evaluates DefaultParams and every pydrex.mock preset: class-body AST, "
@@ -1026,9 +1032,28 @@ def run(chk):
                     regress.append(flag)
                 else:
                     chk.known_finding(f"{key} {text} [patch proposal: fixes/C19-config-errors.patch]")
+        found = []
+        if not ok or bad or regress:
+            # one-call search first: nothing has edited a returned object yet, so what it finds holds in a fresh process
+            found = search(chk, impl, wd, cases, V, status)
+        # call histories on live objects (Model_config_session): results edited between the calls
+        sbad, sessions = [], []
+        if "Model_config_session.v" in br.built_vo and not any(V.values()):
+            import time as _t
+            t1 = _t.time()
+            sbad, sessions = c19_session.correspondence(chk, impl, wd)
+            chk.cov["seconds_call_histories"] = round(_t.time() - t1, 1)
+            for h, msg in sbad:
+                bad.append(({"kind": "call-history:" + h.get("name", "?"), "toml": "", "expect": "session", "omitted": [], "detail": ""}, msg))
+        elif not found and "Model_config_session.v" not in br.built_vo:
+            # no compiled model (a proof / the table generator broke): histories go straight to the property oracle
+            found = c19_session.search_without_model(chk, wd)
+        chk.cov["disagreements"] = len(bad)
         if ok and not bad and not regress:
             return
-        found = search(chk, impl, wd, cases, V, status)
+        if sessions and (sbad or not found):
+            found = c19_session.search(chk, impl, wd, sbad, sessions) + found
+            found = found[:4]
         for flag in regress:
             found.append({"kind": "property-violation", "call": "pydrex.io.parse_config",
                           "input": {"finding": FINDING[flag][0]}, "observed": [FINDING[flag][1] + " (recorded as fixed, reproduces again)"]})
@@ -1051,6 +1076,8 @@ def replay(d):
         print("replay file names a broken obligation; re-run the check itself")
         return 1
     inp = d["input"]
+    if "history" in inp:
+        return c19_session.replay(d)
     if "class" in inp:
         fails = [f for f in oracle_presets() if f[0] == inp["class"] and (inp.get("field") is None or f[1] == inp["field"])]
         for f in fails:
